@@ -24,6 +24,7 @@ import (
 	"math"
 	"reflect"
 	"strconv"
+	"time"
 )
 
 type nullTime = sql.NullTime
@@ -211,6 +212,14 @@ func DeepEqual(x, y interface{}) bool {
 	if bx, ok := bytesOf(typx); ok {
 		if by, ok := bytesOf(typy); ok {
 			return string(bx) == string(by)
+		}
+	}
+
+	// two times are equal when they denote the same instant, whatever location they carry: a time
+	// decoded from the undo log has a fixed-offset zone, the current row the location of the connection
+	if tx, ok := typx.Interface().(time.Time); ok {
+		if ty, ok := typy.Interface().(time.Time); ok {
+			return tx.Equal(ty)
 		}
 	}
 
